@@ -81,11 +81,8 @@ _world = None
 
 
 def _get_world():
-    global _world
-    if _world is None:
-        from verif.harness import World
-        _world = World([])
-    return _world
+    from verif.harness import shared_world
+    return shared_world('c11', [])
 
 
 def _compile(text):
